@@ -7,6 +7,7 @@ from inspect import signature
 from typing import Any, Callable
 
 import h5py
+from array_api_compat import array_namespace
 
 from .flows import get_flow_wrapper
 from .flows.base import Flow
@@ -811,7 +812,16 @@ class Aspire:
         if self.flow is None:
             self.init_flow()
         x, log_q = self.flow.sample_and_log_prob(n_samples)
-        samples = Samples(x=x, log_q=log_q, xp=xp, parameters=self.parameters)
+        # The precision of the instance, spelt for the namespace the samples
+        # will live in (the flow's own unless xp is given)
+        xp_out = xp if xp is not None else array_namespace(x)
+        samples = Samples(
+            x=x,
+            log_q=log_q,
+            xp=xp,
+            parameters=self.parameters,
+            dtype=convert_dtype(self.dtype, xp_out),
+        )
         return samples
 
     # --- Resume helpers ---
